@@ -29,6 +29,56 @@ def or_split_check(ctx, o):
             return
 
 
+def perm_split_check(ctx, o):
+    """`$and_any_order[c1..cn]` is the `$or` of the `$and`s of its orderings, nothing else (checked on the
+    implementation: the two rules must give the same verdict, whatever else the rule contains)"""
+    import itertools
+    doc = o["doc"]
+    pat = doc["pattern"]
+    for idx, it in enumerate(pat):
+        if isinstance(it, dict) and next(iter(it)) == "$and_any_order" and len(it) == 1 and 2 <= len(it["$and_any_order"]) <= 3:
+            alts = [{"$and": [copy.deepcopy(c) for c in p]} for p in itertools.permutations(it["$and_any_order"])]
+            d2 = dict(doc)
+            d2["pattern"] = pat[:idx] + [{"$or": alts}] + pat[idx + 1:]
+            o2 = patdiff.observe(ctx, d2, text=o["text"], modes=("bool",))
+            ctx.report.dist["any-order-split-pairs"] += 1
+            v1, v2 = o.get("impl_bool"), o2.get("impl_bool")
+            if v1 and v2 and v1[0] == "ok" and v2[0] == "ok" and v1 != v2:
+                ctx.report.violate("any-order-is-or-of-orderings", patdiff.case_of(o, {"any_order_position": idx}),
+                                   {"found": v2, "as": "$or of the $and of every ordering"}, {"found": v1})
+            return
+
+
+def any_order_with_captures(g):
+    """an any-order group next to items that define and re-use captures: the group is still a permutation of its
+    children and the captures still refer to their own operands (no group of the operator is counted as a capture)"""
+    a, b, c = g.r.sample(["push", "pop", "nop", "inc", "dec", "xor"], 3)
+    kids = [a, b] if g.chance(0.7) else [a, b, c]
+    regs = g.r.sample(["%rax", "%rbx", "%rcx", "%rdx"], 2)
+    cap_item = {"mov": ["&r", "&r"]}
+    group = {"$and_any_order": list(kids)}
+    shape = g.int(0, 2)
+    if shape == 0:
+        pat = [group, cap_item]
+    elif shape == 1:
+        pat = [{"lea": ["&q"]}, group, cap_item]
+    else:
+        pat = [group, {"add": ["&r"]}, {"sub": ["&r"]}]
+    order = list(kids)
+    g.r.shuffle(order)
+    same = g.chance(0.7)
+    r1, r2 = regs[0], (regs[0] if same else regs[1])
+    body = [(m, ["%rsi"]) for m in order]
+    if shape == 0:
+        seq = body + [("mov", [r1, r2])]
+    elif shape == 1:
+        seq = [("lea", ["%rdi"])] + body + [("mov", [r1, r2])]
+    else:
+        seq = body + [("add", [r1]), ("sub", [r2])]
+    insts = [("%x" % (0x7000 + 2 * i), m, ops) for i, (m, ops) in enumerate(seq)]
+    return {"pattern": pat}, insts, "any-order-with-captures"
+
+
 def prefix_alternatives(g):
     """`$or` whose alternatives match a prefix of one another, followed by a continuation that fits only after the
     longer one: alternation must be able to come back to a later alternative (no atomic/possessive grouping)"""
@@ -147,14 +197,18 @@ def run(ctx, factor):
                        "metamorphic check on the implementation; non-trivial = reached the specification comparison")
     rep = ctx.report
     for it in range(ctx.budget(72, 3000) * factor):
-        doc, insts, tag = (sibling_any_order(ctx.g) if it % 6 in (0, 1) else and_in_any_order(ctx.g) if it % 6 == 2 else
+        doc, insts, tag = (any_order_with_captures(ctx.g) if it % 8 == 7 else
+                           sibling_any_order(ctx.g) if it % 6 in (0, 1) else and_in_any_order(ctx.g) if it % 6 == 2 else
                            repeated_any_order(ctx.g) if it % 6 == 3 else nested_or_with_range(ctx.g) if it % 12 == 4 else
                            prefix_alternatives(ctx.g) if it % 3 else nested_any_order(ctx.g))
         o = patdiff.observe(ctx, doc, insts, modes=("bool", "all", "first"))
         usable = patdiff.correspondence(ctx, o)
         if usable:
-            patdiff.spec_verdict(ctx, o)
+            if tag != "any-order-with-captures":
+                patdiff.spec_verdict(ctx, o)
             or_split_check(ctx, o)
+        if tag == "any-order-with-captures" or it % 5 == 0:
+            perm_split_check(ctx, o)
         rep.case(patdiff.case_of(o), usable, tags=[tag])
         if rep.has_new() and factor > 1:
             return
